@@ -80,3 +80,24 @@ package app
 //@ ensures [never_more_attestations_than_requested] resp.Status == 1 && jsonok("app.BridgeVoteExtension", bytes(req.VoteExtension)) && has(bridge.AttestRequestsByHeightMap, blockheight(ctx) - 1) && blockheight(ctx) >= 1 ==> vx_att(bytes(req.VoteExtension)) <= len(bridge.AttestRequestsByHeightMap[blockheight(ctx) - 1].Requests)
 //@ ensures [an_undecodable_extension_is_rejected_from_a_validator_with_an_evm_address] resp.Status == 1 && !jsonok("app.BridgeVoteExtension", bytes(req.VoteExtension)) ==> ret(GetEVMAddressByOperator, 1) != nil
 //@ ensures [reads_only] nothing_written()
+
+// ---- what a validator signs for the bridge in its vote extension (C16, C17) ----
+// A validator signs the LATEST checkpoint -- the one stored under the latest checkpoint index -- and only when it is a
+// member of the set that has to sign it and has not signed yet; the timestamp it returns with the signature is that
+// checkpoint's. hexdec(hexenc(x)) = x: the message given to the signer is the stored checkpoint.
+// The keyring (operator key lookup, signing) is outside the verified code: trusted, read-only.
+//@ func (h *VoteExtHandler).GetOperatorAddress() (addr, err)
+//@ trusted
+//@ ensures [reads_only] nothing_written()
+
+//@ func (h *VoteExtHandler).EncodeAndSignMessage(checkpointString) (sig, err)
+//@ trusted
+//@ ensures [reads_only] nothing_written()
+
+//@ func (h *VoteExtHandler).CheckAndSignValidatorCheckpoint(ctx) (signature, timestamp, err)
+//@ requires [handler_present] h != nil
+//@ ensures [signs_the_latest_checkpoint_only] err == nil && called(EncodeAndSignMessage) ==> timestamp == ret(GetValidatorTimestampByIdxFromStorage, 0).Timestamp && arg(GetValidatorTimestampByIdxFromStorage, checkpointIdx) == ret(GetLatestCheckpointIndex, 0) && arg(GetValidatorCheckpointParamsFromStorage, timestamp) == timestamp && hexdec(arg(EncodeAndSignMessage, checkpointString)) == bytes(ret(GetValidatorCheckpointParamsFromStorage, 0).Checkpoint)
+//@ ensures [signs_nothing_when_it_already_signed_or_is_not_a_member] err == nil && called(GetValidatorDidSignCheckpoint) && (ret(GetValidatorDidSignCheckpoint, 0) || ret(GetValidatorDidSignCheckpoint, 1) < 0) ==> !called(EncodeAndSignMessage) && len(signature) == 0 && timestamp == 0
+//@ ensures [asks_about_its_own_operator_and_the_latest_checkpoint] called(GetValidatorDidSignCheckpoint) ==> arg(GetValidatorDidSignCheckpoint, operatorAddr) == ret(GetOperatorAddress, 0) && arg(GetValidatorDidSignCheckpoint, checkpointTimestamp) == ret(GetValidatorTimestampByIdxFromStorage, 0).Timestamp
+//@ ensures [a_signature_comes_from_the_signer] err == nil && len(signature) > 0 ==> called(EncodeAndSignMessage)
+//@ ensures [reads_only] nothing_written()
